@@ -22,6 +22,15 @@ def plain (name : String) (binds : List Nat) (f : St → List Port → St × Int
     start := fun _ s => (s, none),
     step := fun s _ v _ => let r := f s v; (r.1, some r.2, none) }
 
+/-- the value of view position `i`, `-1` when it is not valid -/
+def pq (v : List Port) (i : Nat) : Int := ((v.getD i Port.absent).value).getD (-1)
+
+/-- one node bound to several boundary inputs: `passive` positions of `binds`, validity gate `valid` -/
+def mixed (name : String) (binds passive : List Nat) (valid : Option (List Nat)) (f : List Port → Int) : Branch St :=
+  { name := name, binds := binds, validInputs := valid, init := {}, passive := passive,
+    start := fun _ s => (s, none),
+    step := fun s _ v _ => (s, some (f v), none) }
+
 def timerStep (yIdx : Option Nat) (s : St) (now : Nat) (v : List Port) (woken : Bool) : St × Option Int × Option Nat :=
   let y := match yIdx with
     | some i => pv v i * 1000
@@ -57,6 +66,21 @@ def branchOf (name : String) : Option (Nat × Branch St) :=
                            ({ s with a := a }, some a, none) })
   | "timer2" => some (2, { name := "timer2", binds := [1, 2], validInputs := none, init := {},
                            start := fun _ s => (s, none), step := timerStep (some 1) })
+  | "pecho" => some (1, mixed "pecho" [1] [0] none fun v => pv v 0)
+  | "kpx" => some (1, mixed "kpx" [0, 1] [0] none fun v => pv v 0 * 1000 + pv v 1)
+  | "kxp" => some (1, mixed "kxp" [0, 1] [1] none fun v => pv v 0 * 1000 + pv v 1)
+  | "gadd" => some (2, mixed "gadd" [1, 2] [0] none fun v => pv v 0 * 100 + pv v 1)
+  | "gaddr" => some (2, mixed "gaddr" [1, 2] [1] none fun v => pv v 0 * 100 + pv v 1)
+  | "pp2" => some (2, mixed "pp2" [1, 2] [0, 1] none fun v => pv v 0 * 100 + pv v 1)
+  | "orelse" => some (2, mixed "orelse" [1, 2] [] (some [1]) fun v => pq v 0 * 100 + pv v 1)
+  | "orelser" => some (2, mixed "orelser" [1, 2] [] (some [0]) fun v => pv v 0 * 100 + pq v 1)
+  | "uap2" => some (2, mixed "uap2" [1, 2] [1] (some [1]) fun v => pq v 0 * 100 + pv v 1)
+  | "usum2p" => some (2, mixed "usum2p" [1, 2] [0] (some []) fun v => pq v 0 * 100 + pq v 1)
+  | "kgadd" => some (2, mixed "kgadd" [0, 1, 2] [0, 1] none fun v => pv v 0 * 10000 + pv v 1 * 100 + pv v 2)
+  | "kmid" => some (2, mixed "kmid" [0, 1, 2] [0, 2] none fun v => pv v 0 * 10000 + pv v 1 * 100 + pv v 2)
+  | "add3" => some (3, mixed "add3" [1, 2, 3] [] none fun v => pv v 0 + pv v 1 + pv v 2)
+  | "g3" => some (3, mixed "g3" [1, 2, 3] [0] (some [0, 2]) fun v => pv v 0 * 10000 + pq v 1 * 100 + pv v 2)
+  | "g3l" => some (3, mixed "g3l" [1, 2, 3] [0, 1] none fun v => pv v 0 * 10000 + pv v 1 * 100 + pv v 2)
   | _ => none
 
 structure DS where
@@ -89,7 +113,8 @@ def parseCfg (ws : List String) : Option (Nat × Cfg St) :=
   | kt :: rl :: df :: ni :: cs => do
     if kt != "int" && kt != "str" then none
     let reload ← if rl == "0" then some false else if rl == "1" then some true else none
-    let nin ← if ni == "0" then some 0 else if ni == "1" then some 1 else if ni == "2" then some 2 else none
+    let nin ← if ni == "0" then some 0 else if ni == "1" then some 1 else if ni == "2" then some 2
+      else if ni == "3" then some 3 else none
     let dflt ← if df == "-" then some none else
       match branchOf df with
       | some (n, br) => if n == nin then some (some br) else none
@@ -103,6 +128,7 @@ structure CycP where
   k : Option Int := none
   x : Option Int := none
   y : Option Int := none
+  z : Option Int := none
 
 def parseCyc (nin : Nat) : List String → CycP → Option CycP
   | [], c => some c
@@ -110,7 +136,8 @@ def parseCyc (nin : Nat) : List String → CycP → Option CycP
     let val ← canonInt v
     if n == "k" && c.k.isNone then parseCyc nin rest { c with k := some val }
     else if n == "x" && c.x.isNone && nin ≥ 1 then parseCyc nin rest { c with x := some val }
-    else if n == "y" && c.y.isNone && nin == 2 then parseCyc nin rest { c with y := some val }
+    else if n == "y" && c.y.isNone && nin ≥ 2 then parseCyc nin rest { c with y := some val }
+    else if n == "z" && c.z.isNone && nin == 3 then parseCyc nin rest { c with z := some val }
     else none
   | _, _ => none
 
@@ -134,7 +161,7 @@ def fresh (d : DS) : DS := { d with run := {}, now := 1 }
 def cycleLine (d : DS) (c : CycP) : DS × String :=
   if d.bad then (d, "err:invalid-argument") else
   if d.run.dead then ({ d with now := d.now + 1 }, "dead") else
-  let cyc : Cyc := { key := c.k, ins := if d.nin == 0 then [] else if d.nin == 1 then [c.x] else [c.x, c.y] }
+  let cyc : Cyc := { key := c.k, ins := if d.nin == 0 then [] else if d.nin == 1 then [c.x] else if d.nin == 2 then [c.x, c.y] else [c.x, c.y, c.z] }
   let o := cycle d.cfg d.run d.now cyc
   let d' := { d with run := o.run, now := d.now + 1 }
   match o.err with
